@@ -14,7 +14,7 @@ func init() {
 		ID: "C12",
 		Explanation: "Shape rules on SplitRawStatements over its SSA: R1 every NextToken() result is tested and returned as the error; R2 delegation: the input string is used only as the lexer's buffer and as the operand of slice expressions whose bounds are token positions, and branch conditions depend only on Token.Kind against ';' / <eof>, on the error, on positions and on the result length — what counts as a literal or a comment is the lexer's knowledge alone; R3 in every RawStatement literal Statement is input[a:b] with the very values stored in Pos and End; pieces end at the position of the ';' (or <eof>) token; R4 the start of a piece after a ';' accounts for the comments attached to the next token (Token.Pos lies after them), or is the end of the ';' token; the loop is driven through TKAI: it leaves only at <eof> (C03/R4 gives termination). " +
 			"Does not decide: ordering / non-overlap arithmetic.",
-		Rules: []ruleFn{ruleC12, ruleC14R7, ruleC14R8, ruleC12R5},
+		Rules: []ruleFn{ruleC12, ruleC14R7, ruleC14R8, ruleC12R5, ruleC05R6},
 	})
 }
 
